@@ -158,7 +158,7 @@ struct SessionsModel : Monitor {
 		for (auto &s : slot) if (s.second.issued && s.second.assigned_ip_h == dst) { any = true; if (s.second.logged_in && w->S.now - s.second.t_hi < 62ull * 1000000) expired_owner = false; }
 		srv_offered[p] = {w->S.now, any ? expired_owner : true};
 		// ... and a packet for an address whose every owner has been silent for more than a minute must be taken for nobody
-		dl.armed = any && expired_owner;
+		dl.armed = any ? expired_owner : true;       // also an address no session was ever told (or whose slot was re-issued by a new version handshake without a login since)
 		if (dl.armed) { dl.z = z_compress(p); dl.dst = dst; }
 	}
 	struct DeadLookup { bool armed = false; Bytes z; uint32_t dst = 0; } dl;
@@ -335,7 +335,7 @@ struct SessionsModel : Monitor {
 			for (int u = 0, n = peek_nusers(); u < n; u++) {
 				std::vector<Bytes> held; peek_outpackets(u, held);
 				for (auto &h : held) if (h == dl.z) {
-					char b[220]; snprintf(b, sizeof b, "a packet for %s, whose only owner (session %d) has been silent for more than 60 s, was queued for that session", Addr::v4(dl.dst, 0).str().c_str(), u);
+					char b[220]; snprintf(b, sizeof b, "a packet for %s, which no live logged-in session owns (its owner, if any, has been silent for more than 60 s or never logged in), was queued for session %d", Addr::v4(dl.dst, 0).str().c_str(), u);
 					w->S.violate("C18", "lookup.dead_owner_found", b);
 				}
 			}
@@ -664,6 +664,23 @@ J gen_sessions(uint64_t seed, const J &ov)
 		if (act == "pkt" || act == "rawdata") { op.set("ser", (long long)++ser); op.set("len", (int)r.range(40, 200)); op.set("body", "rnd"); op.set("dst", "srv"); }
 		if (r.chance(0.6) && act != "v") op.set("uid", (int)(r.chance(0.8) ? r.range(0, std::max(0, cap - 1)) : r.range(0, 255)));
 		ops.push(op);
+	}
+	// a slot that changes hands without a login: after a session has expired, someone without the password does the version
+	// handshake (and gets the expired slot, the first one free), then packets for the old owner's address arrive from the tun
+	if (!ffrag) for (auto &m : models.a) {
+		if (!m.has("auto_until_s") || m.gets("name")[0] != 'm' || !r.chance(0.5)) continue;
+		double stop = m.getd("auto_until_s");
+		if (stop + 75 > T) continue;
+		double tv = stop + 61.5 + r.uniform() * 8;
+		J op = J::obj(); op.set("ref", "abs"); op.set("t", (long long)(tv * 1e6)); op.set("op", "mc"); op.set("who", "a" + std::to_string(r.range(0, na - 1))); op.set("act", "v");
+		ops.push(op);
+		if (r.chance(0.4)) { J l = J::obj(); l.set("ref", "abs"); l.set("t", (long long)((tv + 0.3) * 1e6)); l.set("op", "mc"); l.set("who", op.gets("who")); l.set("act", "l"); l.set("mode", lmodes[r.range(0, 3)]); ops.push(l); }
+		int k = (int)r.range(1, 4);
+		for (int j = 0; j < k; j++) {
+			J t2 = J::obj(); t2.set("ref", "abs"); t2.set("t", (long long)((tv + 0.5 + r.uniform() * 4) * 1e6)); t2.set("op", "tun"); t2.set("at", "srv"); t2.set("ser", (long long)++ser);
+			t2.set("len", (int)r.range(40, 400)); t2.set("body", "rnd"); t2.set("src", "ext"); t2.set("dst", m.gets("name"));
+			ops.push(t2);
+		}
 	}
 	// spoofers: a legitimate-looking request naming a victim's slot, sent from a foreign address (same or other family)
 	int nsp = (ffrag || fpool) ? 0 : (int)r.range(10, 80);
